@@ -46,6 +46,12 @@ pub fn magic_content(rng: &mut Rng, kind: Option<&str>) -> Content {
         Some(k) => *MAGIC.iter().find(|(n, _)| *n == k).unwrap_or(&MAGIC[0]),
         None => *rng.pick(MAGIC),
     };
+    // a third of the files are nothing but (a prefix of) the signature: every prefix length of
+    // every signature occurs - the two-byte file that is only a byte order mark, the one-byte PNG
+    if rng.chance(1, 3) {
+        let cut = rng.range(1, head.len().min(6));
+        return Content::Literal(head[..cut].to_vec().into());
+    }
     let mut v = head.to_vec();
     let extra = rng.below(300);
     for i in 0..extra {
@@ -85,7 +91,7 @@ pub fn add_realism(rng: &mut Rng, tree: &mut TreeSpec) -> Vec<String> {
     }
     let rel = |p: &str| format!("/{}", p.strip_prefix(&format!("{}/", root)).unwrap_or(p));
     for _ in 0..rng.range(1, 4) {
-        match rng.below(7) {
+        match rng.below(9) {
             0 | 1 if !files.is_empty() => {
                 // a tool's sibling of an existing file
                 let (f, len) = files[rng.below(files.len())].clone();
@@ -148,6 +154,30 @@ pub fn add_realism(rng: &mut Rng, tree: &mut TreeSpec) -> Vec<String> {
                 let p = format!("{}/{}", d, name);
                 let kind = *rng.pick(&["bom8", "bom8txt", "bom8", "bom16le", "bom16be"]);
                 if push_file(tree, p.clone(), magic_content(rng, Some(kind))) {
+                    added.push(rel(&p));
+                }
+            }
+            6 => {
+                // names build tools, cameras, browsers and crawlers know: content hashes, retina
+                // suffixes, copies, service workers, icons
+                let d = rng.pick(&dirs).clone();
+                let name = match rng.below(12) {
+                    0 => format!("app.{:08x}.js", rng.next() as u32),
+                    1 => format!("main.{:016x}.css", rng.next()),
+                    2 => format!("chunk.{:016x}{:016x}.js", rng.next(), rng.next()),
+                    3 => format!("logo-{:08x}.png", rng.next() as u32),
+                    4 => format!("runtime~main.{:08x}.js", rng.next() as u32),
+                    5 => "image@2x.png".to_string(),
+                    6 => "report (1).txt".to_string(),
+                    7 => format!("IMG_{:04}.JPG", rng.below(10000)),
+                    8 => rng.pick(&["service-worker.js", "sw.js", "manifest.json", "package.json", "index.min.js", "bundle.js.LICENSE.txt"]).to_string(),
+                    9 => rng.pick(&["favicon.ico", "apple-touch-icon.png", "crossdomain.xml", "browserconfig.xml", "humans.txt", "ads.txt", "sitemap.xml.gz"]).to_string(),
+                    10 => format!("{:032x}.jpg", (rng.next() as u128) << 64 | rng.next() as u128),
+                    _ => format!("v{}.{}.{}.tar.gz", rng.below(10), rng.below(10), rng.below(100)),
+                };
+                let p = format!("{}/{}", d, name);
+                let c = Content::Gen { marker: String::new(), len: rng.range(0, 400), seed: rng.next(), binary: rng.chance(1, 2) };
+                if push_file(tree, p.clone(), c) {
                     added.push(rel(&p));
                 }
             }
@@ -222,6 +252,10 @@ pub const CONDITIONAL_HEADERS: &[(&str, &str)] = &[
     ("Accept-Encoding", "gzip"), ("Accept-Encoding", "gzip, deflate, br"), ("Accept-Encoding", "br;q=1.0, gzip;q=0.8, *;q=0.1"), ("Accept", "image/webp,*/*"), ("Accept", "application/json"), ("Accept-Language", "de"),
     ("Prefer", "return=minimal"), ("Save-Data", "on"), ("Want-Digest", "sha-256"), ("A-IM", "feed"), ("X-Requested-With", "XMLHttpRequest"), ("Purpose", "prefetch"), ("Sec-Fetch-Dest", "image"),
 ];
+
+/// origins that are not scheme://host[:port] of a web site: opaque ones, app and extension schemes,
+/// loopback spellings
+pub const UNUSUAL_ORIGINS: &[&str] = &["null", "file://", "file:///C:/Users/x/page.html", "data:", "about:blank", "chrome-extension://abcdefghijklmnop", "moz-extension://4f3a-11e9", "app://local", "capacitor://localhost", "ionic://localhost", "http://localhost", "http://localhost:8080", "https://127.0.0.1:8443", "http://[::1]:3000", "http://xn--e1afmkfd.xn--p1ai", "HTTP://A.EXAMPLE", "https://a.example.", "http://a.example:80", "https://b.example:443", "http://user:pw@a.example", "blob:http://a.example/1234", "ws://a.example", "ftp://a.example"];
 
 /// extension methods a preflight may name
 pub const EXTENSION_METHODS: &[&str] = &["PROPFIND", "REPORT", "PURGE", "MKCOL", "LOCK", "SEARCH", "QUERY", "get", "Get", "", "GET,POST", "*", "BREW"];
